@@ -109,6 +109,13 @@ fn scheme_change_family(g: &mut G, ctx: &RunCtx) -> RunReport {
     if same_port {
         g.probe("scheme-change-on-the-same-host-and-port");
     }
+    // (no draw) no proxy at all: plain http on port 443, then TLS on the same port of the same host - one
+    // server as far as addresses go, two URLs with two Host spellings (`origin.test:443`, then `origin.test`)
+    let both_direct = !http_only && same_port && status % 2 == 1;
+    if both_direct {
+        g.probe("scheme-change-on-the-same-host-and-port-without-a-proxy");
+    }
+    let seen_tls = Arc::new(Mutex::new(Seen::default()));
     let sim = Sim::new(ctx.sim_config());
     let seen = Arc::new(Mutex::new(Seen::default()));
     sim.add_host("origin.test", vec!["10.0.0.1".parse().unwrap()]);
@@ -128,13 +135,27 @@ fn scheme_change_family(g: &mut G, ctx: &RunCtx) -> RunReport {
         let s1 = seen.clone();
         sim.add_listener("10.0.0.1".parse().unwrap(), 80, lat, Some(Box::new(move |_i| Box::new(HttpPeer::new(Arc::new(redirecting), s1.clone())))));
         let s3 = seen.clone();
+        let s4 = seen_tls.clone();
+        let tlog = Arc::new(Mutex::new(TlsLog::default()));
         let mut n443 = 0;
         sim.add_listener(
             "10.0.0.1".parse().unwrap(),
             443,
             lat,
-            Some(Box::new(move |_i| {
+            Some(Box::new(move |i| {
                 n443 += 1;
+                if both_direct && n443 == 2 {
+                    let inner = HttpPeer::new(
+                        Arc::new(|_r, _c| {
+                            let mut s = Script::default();
+                            s.acts.push(Act::Send(b"HTTP/1.1 200 OK\r\nContent-Length: 2\r\n\r\nok".to_vec()));
+                            s.acts.push(Act::Fin);
+                            s
+                        }),
+                        s4.clone(),
+                    );
+                    return Box::new(crate::tlspeer::TlsPeer::new("good", Box::new(inner), tlog.clone(), i.conn));
+                }
                 // a plain-http first hop to port 443 is answered there (direct route only)
                 if same_port && !http_only && n443 == 1 {
                     Box::new(HttpPeer::new(Arc::new(redirecting), s3.clone()))
@@ -162,7 +183,13 @@ fn scheme_change_family(g: &mut G, ctx: &RunCtx) -> RunReport {
     }
     let out = sim.run(|| {
         let pu = url::Url::parse("http://proxy.test:3128").unwrap();
-        let pb = if http_only { attohttpc::ProxySettings::builder().http_proxy(pu) } else { attohttpc::ProxySettings::builder().https_proxy(pu) };
+        let pb = if both_direct {
+            attohttpc::ProxySettings::builder()
+        } else if http_only {
+            attohttpc::ProxySettings::builder().http_proxy(pu)
+        } else {
+            attohttpc::ProxySettings::builder().https_proxy(pu)
+        };
         let _ = attohttpc::get(if same_port { "http://origin.test:443/start" } else { "http://origin.test/start" }).proxy_settings(pb.build()).read_timeout(std::time::Duration::from_millis(100)).danger_accept_invalid_certs(true).send();
     });
     let mut stats = Stats::default();
@@ -172,6 +199,23 @@ fn scheme_change_family(g: &mut G, ctx: &RunCtx) -> RunReport {
             None => return violation("hang", "torn down"),
             Some(Err(m)) => return violation("panic", m.clone()),
             Some(Ok(())) => {}
+        }
+        if both_direct {
+            let got: Vec<String> = out.history.conns.iter().map(|c| c.addr.to_string()).collect();
+            if got != ["10.0.0.1:443", "10.0.0.1:443"] {
+                return violation("scheme-change:hops", format!("connections {:?}, expected two to 10.0.0.1:443", got));
+            }
+            return match seen_tls.lock().unwrap().requests.first() {
+                Some((_, Ok(r))) => {
+                    let host = r.header_str("host").unwrap_or_default();
+                    if host != "origin.test" || r.target != "/next" {
+                        violation("host-header:after-scheme-change-on-the-same-server", format!("https://origin.test/next was asked for as {:?} with Host {:?} (after http://origin.test:443/start -> {})", r.target, host, status))
+                    } else {
+                        Verdict::Pass
+                    }
+                }
+                other => violation("scheme-change:second-hop-form", format!("no well-formed request inside the TLS session: {:?}", other.map(|x| x.1.as_ref().err()))),
+            };
         }
         let want: [&str; 2] = if http_only { ["10.0.0.9:3128", "10.0.0.1:443"] } else if same_port { ["10.0.0.1:443", "10.0.0.9:3128"] } else { ["10.0.0.1:80", "10.0.0.9:3128"] };
         let got: Vec<String> = out.history.conns.iter().map(|c| c.addr.to_string()).collect();
